@@ -53,6 +53,19 @@ pub fn c02(rep: &mut Report, tier: &str, seed: u64) {
         run_cmd4(rep, cfg, &caps, seed);
         rep.required.push((name, "utf8_handler_strings".into()));
     }
+    // completion of multi-byte names in tight buffers: the line, echo and dispatched name stay UTF-8
+    let alphabet = vec![ch('a'), ch('é'), k(Key::Bs), k(Key::Left), k(Key::Tab), k(Key::Lf), k(Key::Up)];
+    for cb in if tier == "quick" { vec![3, 4, 5, 6] } else { vec![2, 3, 4, 5, 6, 7, 8] } {
+        let cfg = base_cfg(
+            "C02",
+            format!("multi-byte completion cb={} hb=6 cmdU", cb),
+            cb,
+            6,
+            alphabet.clone(),
+            Mon { utf8: true, invariants: true, ..Default::default() },
+        );
+        run_cmdu(rep, cfg, &caps, seed);
+    }
 }
 
 pub fn c04(rep: &mut Report, tier: &str, seed: u64) {
